@@ -8,6 +8,7 @@ import Driver.Golden
 import Driver.OsFs
 import Driver.Conc
 import Driver.Crash
+import Driver.ConcW
 open Driver
 
 def runStateless (f : String → String) : IO Unit := do
@@ -35,7 +36,7 @@ def main (args : List String) : IO UInt32 := do
   | ["sizes"] => runStateless sizesLine; return 0
   | ["golden"] => runStateless goldenLine; return 0
   | ["fsdur"] => runStateless osfsLine; return 0
-  | ["conc"] => runStateless concLine; return 0
+  | ["conc"] => runStateless (fun l => if l.startsWith "concw" then concwLine l else concLine l); return 0
   | ["crash"] => runStateful ({} : CrashSt) crashLine; return 0
   | ["segment"] => runStateful ({} : SegSt) segLine; return 0
   | _ => IO.eprintln "usage: driver <suite>"; return 2
